@@ -447,9 +447,11 @@ func globalStringElems(c *Ctx, g *ssa.Global) []string {
 }
 
 // sectionExpr: v denotes a dot-separated section of the style parameter:
-//   strings.Split(style, ".")[k]              -> section k
-//   before, after, found := strings.Cut(x, ".") with x = style or the rest after section j
-//   strings.ToLower(section)                  -> lowered
+//
+//	strings.Split(style, ".")[k]              -> section k
+//	before, after, found := strings.Cut(x, ".") with x = style or the rest after section j
+//	strings.ToLower(section)                  -> lowered
+//
 // Returns (k, isRest, lowered, ok); isRest means "everything after section k-1".
 func sectionExpr(v ssa.Value, style ssa.Value, depth int) (int, bool, bool, bool) {
 	if depth > 6 {
